@@ -59,6 +59,16 @@ theorem c02_signed_heap_end_to_end (g : Graph) (hs : g.simpleB = true) (hp : g.p
     McbCorrect g order (mcbSignedH g order σ) :=
   mcbSignedH_correct g hs hp order ho σ hσ
 
+/-- **`mcb_sva_signed_tbb` with the real heaps**, under every execution of every `parallel_reduce` and every push order -/
+theorem c03_signed_tbb_heap_end_to_end (g : Graph) (hs : g.simpleB = true) (hp : g.positiveB = true)
+    (order : List Nat) (ho : order.Perm (List.range g.n))
+    (σ : Nat → List Nat → List Nat) (hσ : ∀ k S, (σ k S).Perm S)
+    (perm : List Nat) (hperm : perm.Perm (List.range (createIndex g order).dim))
+    (scheds : Nat → List Nat → Sched)
+    (hcov : ∀ k S, (scheds k S).Covers 0 (if g.n ≤ S.length then g.n else S.length)) :
+    McbCorrect g order (mcbSignedTbbH g order σ perm scheds) :=
+  mcbSignedTbbH_correct g hs hp order ho σ hσ perm hperm scheds hcov
+
 theorem c05_approx_signed_heap_end_to_end (g : Graph) (hs : g.simpleB = true) (hp : g.positiveB = true) (k : Nat)
     (hk : 1 ≤ k) (scan : List Nat) (hscan : scanOkB g scan = true) (order : List Nat) (ho : order.Perm (List.range g.n))
     (σ : Nat → List Nat → List Nat) (hσ : ∀ j S, (σ j S).Perm S) :
